@@ -36,7 +36,9 @@ func (a *IncrementalAlterConfigsResponse) decode(pd packetDecoder, version int16
 		return err
 	}
 
-	a.Resources = make([]*AlterConfigsResourceResponse, responseCount)
+	if responseCount >= 0 {
+		a.Resources = make([]*AlterConfigsResourceResponse, responseCount)
+	}
 
 	for i := range a.Resources {
 		a.Resources[i] = new(AlterConfigsResourceResponse)
